@@ -128,3 +128,97 @@ Section G.
         replace (S j - 1) with j by lia. cbn [nth]. apply IH; auto. cbn in Hj |- *. lia.
   Qed.
 End G.
+
+(* ---------- x.at[idx].set(y) followed by [idx] gives back y: the indexed entries receive exactly the new values
+   (in-range, pairwise distinct positions; the frame property for the other entries is TensorP.tscatter_frame) ---------- *)
+Lemma nth_upd_same {X} (l : list X) p v d : p < length l -> nth p (upd l p v) d = v.
+Proof. revert p; induction l as [|a l IH]; intros [|p] H; cbn in *; try lia; auto. apply IH; lia. Qed.
+Lemma nth_upd_other {X} (l : list X) p q v d : p <> q -> nth q (upd l p v) d = nth q l d.
+Proof. revert p q; induction l as [|a l IH]; intros [|p] [|q] H; cbn; auto; try congruence. Qed.
+Lemma map_combine_eq {X Y} (g : X -> Y) xs ys : length xs = length ys ->
+  (forall x y, In (x, y) (combine xs ys) -> g x = y) -> map g xs = ys.
+Proof.
+  revert ys; induction xs as [|x xs IH]; intros [|y ys] L H; cbn in *; try discriminate; [reflexivity|].
+  f_equal; [apply H; now left | apply IH; [lia | intros; apply H; now right]].
+Qed.
+Lemma map_fst_combine {X Y} (xs : list X) (ys : list Y) : length xs = length ys -> map fst (combine xs ys) = xs.
+Proof. revert ys; induction xs as [|x xs IH]; intros [|y ys] L; cbn in *; try discriminate; [reflexivity|]. f_equal. apply IH. lia. Qed.
+
+Section GS.
+  Context {A : Type}.
+  Notation tens := (tensor A).
+
+  Fixpoint rs_ok (rs : list (list Z * bool)) (s : shape) : Prop :=
+    match rs, s with
+    | [], _ => True
+    | (zs, _) :: rs', n :: s' => Forall (fun z => inrange n z = true) zs /\ NoDup zs /\ rs_ok rs' s'
+    | _ :: _, [] => False
+    end.
+
+  Lemma to_nat_inj n z z' : inrange n z = true -> inrange n z' = true -> z <> z' -> Z.to_nat z <> Z.to_nat z'.
+  Proof. rewrite !inrange_spec. lia. Qed.
+
+  Lemma fold_put_spec (sc : tens -> tens -> tens) n : forall (zv : list (Z * tens)) (l0 : list tens),
+    length l0 = n -> Forall (fun p => inrange n (fst p) = true) zv -> NoDup (map fst zv) ->
+    let put := fun (l1 : list tens) (z : Z) (v : tens) =>
+      if inrange n z then upd l1 (Z.to_nat z) (sc (nth (Z.to_nat z) l1 dflt) v) else l1 in
+    let r := fold_left (fun l1 p => put l1 (fst p) (snd p)) zv l0 in
+    length r = n /\
+    (forall z v, In (z, v) zv -> nth (Z.to_nat z) r dflt = sc (nth (Z.to_nat z) l0 dflt) v) /\
+    (forall p, (forall z, In z (map fst zv) -> Z.to_nat z <> p) -> nth p r dflt = nth p l0 dflt).
+  Proof.
+    induction zv as [|[z0 v0] zv IH]; intros l0 L F N put r.
+    - subst r. cbn. split; [exact L|]. split; [intros z v []|reflexivity].
+    - inversion F as [|? ? F0 F']; subst. cbn [map fst] in N. inversion N as [|? ? N0 N']; subst. cbn [fst] in F0.
+      subst r. cbn [fold_left fst snd].
+      assert (E1 : put l0 z0 v0 = upd l0 (Z.to_nat z0) (sc (nth (Z.to_nat z0) l0 dflt) v0)) by (unfold put; now rewrite F0).
+      rewrite E1. set (l1 := upd l0 (Z.to_nat z0) (sc (nth (Z.to_nat z0) l0 dflt) v0)).
+      assert (L1 : length l1 = length l0) by apply upd_length.
+      destruct (IH l1 L1 F' N') as (R1 & R2 & R3). fold put in R1, R2, R3.
+      assert (P0 : Z.to_nat z0 < length l0) by (apply inrange_spec in F0; lia).
+      split; [exact R1|]. split.
+      + intros z v [E|Hin].
+        * injection E as <- <-. etransitivity; [apply R3|].
+          2:{ unfold l1. now rewrite nth_upd_same. }
+          intros z Hz. apply (to_nat_inj (length l0)); [|exact F0|].
+          -- apply in_map_iff in Hz as (p & <- & Hp). rewrite Forall_forall in F'. now apply F'.
+          -- intros ->. contradiction.
+        * etransitivity; [apply (R2 z v Hin)|]. f_equal. unfold l1. apply nth_upd_other.
+          apply (to_nat_inj (length l0)); [exact F0| |].
+          -- rewrite Forall_forall in F'. now apply (F' (z, v)).
+          -- intros ->. apply N0. apply in_map_iff. exists (z, v). auto.
+      + intros p Hp. etransitivity; [apply R3; intros z Hz; apply Hp; now right|].
+        unfold l1. apply nth_upd_other. apply Hp. now left.
+  Qed.
+
+  Theorem gather_scatter ix : forall s rs (x y : tens), resolve_idx ix s = Some rs -> rs_ok rs s ->
+    has_shape s x = true -> has_shape (idx_shape rs s) y = true -> tgather rs (tscatter rs x y) = y.
+  Proof.
+    induction ix as [|i ix IH]; intros s rs x y Hr Hok Hx Hy.
+    - destruct s; cbn in Hr; injection Hr as <-; reflexivity.
+    - destruct s as [|n s]; [discriminate|]. cbn [resolve_idx] in Hr.
+      destruct (resolve_sel n i) as [[zs keep]|] eqn:Es; [|discriminate].
+      destruct (resolve_idx ix s) as [rs'|] eqn:Er; [|discriminate]. injection Hr as <-.
+      apply resolve_sel_facts in Es as [Hn Hk]. cbn [rs_ok] in Hok. destruct Hok as (Fz & Nz & Hok').
+      apply has_shape_cons in Hx as (l & -> & Hl & Hf). subst n.
+      cbn [idx_shape] in Hy. cbn [tscatter]. cbn zeta.
+      destruct keep.
+      + apply has_shape_cons in Hy as (ys & -> & Ly & Fy).
+        assert (Lc : map fst (combine zs ys) = zs) by (apply map_fst_combine; lia).
+        destruct (fold_put_spec (tscatter rs') (length l) (combine zs ys) l eq_refl) as (R1 & R2 & _).
+        { apply Forall_forall. intros [z v] Hin. apply in_combine_l in Hin. rewrite Forall_forall in Fz. now apply Fz. }
+        { now rewrite Lc. }
+        cbn zeta in R1, R2. cbn [tgather]. rewrite R1. f_equal.
+        apply map_combine_eq; [lia|]. intros z v Hin.
+        assert (Hz : inrange (length l) z = true) by (apply in_combine_l in Hin; rewrite Forall_forall in Fz; now apply Fz).
+        assert (Ec : clampn (length l) z = Z.to_nat z) by (apply inrange_spec in Hz; unfold clampn; lia).
+        rewrite Ec, (R2 z v Hin). apply (IH s rs'); auto.
+        * apply nth_has_shape; [exact Hf|]. apply inrange_spec in Hz. lia.
+        * apply in_combine_r in Hin. rewrite Forall_forall in Fy. now apply Fy.
+      + destruct (Hk eq_refl) as [z ->]. inversion Fz as [|? ? Hz _]; subst.
+        rewrite Hz. cbn [tgather]. rewrite upd_length.
+        assert (Ec : clampn (length l) z = Z.to_nat z) by (apply inrange_spec in Hz; unfold clampn; lia).
+        rewrite Ec, nth_upd_same by (apply inrange_spec in Hz; lia).
+        apply (IH s rs'); auto. apply nth_has_shape; [exact Hf|]. apply inrange_spec in Hz. lia.
+  Qed.
+End GS.
